@@ -217,7 +217,7 @@ def run(ctx):
         return _after_model(ctx, quick, rnd, binary, defect, runs)
     mc = vf.tlc_must_pass(ctx, "MC_Cluster", "MC_Cluster_quick.cfg", timeout=900, workers=WORKERS, heap="6g")
     runs.append(dict(cfg="MC_Cluster_quick", distinct=mc.distinct, generated=mc.generated, depth=mc.depth))
-    for cfg in ("MC_Cluster_dup", "MC_Cluster_filter", "MC_Cluster_split"):
+    for cfg in (("MC_Cluster_filter", "MC_Cluster_split") if quick else ("MC_Cluster_dup", "MC_Cluster_filter", "MC_Cluster_split")):
         mf = vf.tlc_must_pass(ctx, "MC_Cluster", cfg + ".cfg", timeout=900, workers=WORKERS, heap="6g")
         runs.append(dict(cfg=cfg, distinct=mf.distinct, generated=mf.generated, depth=mf.depth))
     md = vf.run_tlc(ctx, "MC_Cluster", "MC_Cluster_defect.cfg", timeout=600, workers=WORKERS, heap="4g")
@@ -271,7 +271,7 @@ def _after_model(ctx, quick, rnd, binary, defect, runs):
     for (src, kw, _), hs in zip(jobs, results):
         if quick and src == "all-refresh-3":
             rnd.shuffle(hs)
-            hs, src = hs[:1500], "refresh-3-sample"
+            hs, src = hs[:900], "refresh-3-sample"
         if src == "all-mixed-2":
             h2 = hs
         scs.extend(_scenarios(hs, len(scs), src=src, **kw))
